@@ -47,82 +47,122 @@ def _call_binding(fx, call, callee_fn, skip_first=0):
     return bound, star_kw
 
 
-@rule('C12', 'R2', 39, 'route wrappers forward every option to the same-named serialiser parameter; defaults agree')
+@rule('C12', 'R2', 30, 'route wrappers forward every option to the same-named serialiser parameter (marker arguments, recording serialisers); defaults agree')
 def r2(fx):
+    from ..interp import Instance
+    it = Interp(max_steps=5_000_000)
+    calls = []
+
+    def rec(name):
+        def f(*a, **k):
+            calls.append((name, a, k))
+        return f
+    io_ns = ev.Namespace('io', {'BytesIO': _BytesIO})
+    import base64 as _b64
+    wenv = callable_env(fx.forest, 'writers', it, {'write_svg': rec('write_svg'), 'write_png': rec('write_png'), 'io': io_ns,
+                                                    'base64': ev.Namespace('base64', {'b64encode': _b64.b64encode}), 'partial': __import__('functools').partial})
     svg = fx.fn('writers', 'write_svg')
     wrapper = fx.fn('writers', 'colorful.decorate.wrapper')
     uri = fx.fn('writers', 'as_svg_data_uri')
-    call = single([c for c in src.calls_in(uri, 'write_svg')], 'write_svg call in as_svg_data_uri')
-    # write_svg as seen by callers: wrapper(matrix, matrix_size, out, <colours>, **kw) -> f(matrix, matrix_size, out, cm, **kw)
-    bound, star = _call_binding(fx, call, wrapper)
     own = [p for p in src.params(uri) if p not in ('matrix', 'matrix_size', 'encode_minimal', 'omit_charset')]
     svg_params = set(src.params(svg)) | set(src.params(wrapper))
+    # every option under its own name, extra keywords passed through, the symbol and a buffer of its own
+    calls.clear()
+    marks = {p: f'<{p}>' for p in own}
+    marks['encoding'] = 'utf-8'
+    FuncVal(uri, wenv, it)('<m>', (21, 21), **marks, dark='<dark>', draw_transparent='<dt>')
+    need(len(calls) == 1 and calls[0][0] == 'write_svg', 'as_svg_data_uri does not call write_svg exactly once')
+    a, k = calls[0][1], calls[0][2]
     for p in own:
-        got = bound.get(p)
-        yield ob(f'as_svg_data_uri({p}) -> write_svg({p})', isinstance(got, ast.Name) and got.id == p and p in svg_params, call,
-                 got=f'{p}={ast.unparse(got)}' if got is not None else 'not passed', want=f'{p}={p}')
-    yield ob('as_svg_data_uri forwards **kw (colours, draw_transparent)', star == 'kw' and uri.args.kwarg is not None, call, got=star, want='**kw')
-    yield ob('as_svg_data_uri writes (matrix, matrix_size) to its own buffer', ast.unparse(bound.get('matrix')) == 'matrix'
-             and ast.unparse(bound.get('matrix_size')) == 'matrix_size' and nf.same_inlined(uri, bound.get('out'), 'io.BytesIO()'), call,
-             got=[ast.unparse(bound.get(k)) for k in ('matrix', 'matrix_size', 'out') if bound.get(k) is not None], want=['matrix', 'matrix_size', 'buff'])
-    ud, sd = src.param_defaults(uri), src.param_defaults(svg)
-    documented = {'xmldecl': 'False', 'nl': 'False'}
+        yield ob(f'as_svg_data_uri({p}) -> write_svg({p})', k.get(p, '<not passed>') == marks[p] and p in svg_params, uri, got=f'{p}={k.get(p, "<not passed>")}', want=f'{p}={marks[p]}')
+    yield ob('as_svg_data_uri forwards **kw (colours, draw_transparent)', k.get('dark') == '<dark>' and k.get('draw_transparent') == '<dt>', uri,
+             got={x: k.get(x) for x in ('dark', 'draw_transparent')}, want='**kw')
+    yield ob('as_svg_data_uri writes (matrix, matrix_size) to its own buffer', len(a) >= 3 and a[0] == '<m>' and a[1] == (21, 21) and isinstance(a[2], _BytesIO), uri,
+             got=[type(x).__name__ for x in a], want=['matrix', 'matrix_size', 'buff'])
+    # defaults: what write_svg receives when nothing is given = its own defaults (documented differences: xmldecl, nl)
+    calls.clear()
+    FuncVal(uri, wenv, it)('<m>', (21, 21))
+    k0 = calls[0][2]
+    sd = src.param_defaults(svg)
+    senv = ev.base_env(fx.forest, 'writers')
+    documented = {'xmldecl': False, 'nl': False}
     for p in own:
-        a, b = ud.get(p), sd.get(p)
-        if a is None or b is None:
+        if p not in sd:
             continue
-        at, bt = ast.unparse(a), ast.unparse(b)
+        want_v = ev.ev(sd[p], senv)
+        got_v = k0.get(p, want_v)
         if p in documented:
-            ok = at == documented[p]
-            want = f'{documented[p]} (documented difference)'
-        elif p == 'unit':
-            ok = at == bt
-            if not ok and {at, bt} <= {"''", 'None'}:
-                # '' and None must then mean the same to the serialiser: render it with both
-                from . import p10
-                itr = Interp(max_steps=5_000_000)
-                a1, _ = p10._render(fx, itr, 'write_svg', 2, '#000', None, unit='')
-                a2, _ = p10._render(fx, itr, 'write_svg', 2, '#000', None, unit=None)
-                ok = a1 == a2
-            want = f"{bt} (or a value the SVG serialiser treats like it)"
+            ok, want = got_v is documented[p], f'{documented[p]} (documented difference)'
         else:
-            ok = at == bt
-            want = bt
-        yield ob(f'default of as_svg_data_uri({p})', ok, uri, got=at, want=want)
+            ok, want = got_v == want_v and type(got_v) is type(want_v), repr(want_v)
+            if not ok and p == 'unit' and {got_v, want_v} <= {'', None}:
+                from . import p10
+                a1, _ = p10._render(fx, it, 'write_svg', 2, '#000', None, unit='')
+                a2, _ = p10._render(fx, it, 'write_svg', 2, '#000', None, unit=None)
+                ok, want = a1 == a2, f'{want_v!r} (or a value the SVG serialiser treats like it)'
+        yield ob(f'default of as_svg_data_uri({p})', ok, uri, got=repr(got_v), want=want)
     # png data uri
     pu = fx.fn('writers', 'as_png_data_uri')
-    c = single([c for c in src.calls_in(pu, 'write_png')], 'write_png call in as_png_data_uri')
-    b = pat.match(c, 'write_png(matrix, matrix_size, H_b, scale=scale, border=border, compresslevel=compresslevel, **kw)')
-    b = b if b is not None and nf.same_inlined(pu, b['b'], 'io.BytesIO()') else None
-    yield ob('as_png_data_uri forwards scale, border, compresslevel and **kw', b is not None, c, got=ast.unparse(c), want='write_png(matrix, matrix_size, buff, scale=scale, border=border, compresslevel=compresslevel, **kw)')
-    pd, wd = src.param_defaults(pu), src.param_defaults(fx.fn('writers', 'write_png'))
+    calls.clear()
+    FuncVal(pu, wenv, it)('<m>', (21, 21), scale='<scale>', border='<border>', compresslevel='<cl>', dark='<dark>', dpi='<dpi>')
+    okp = len(calls) == 1 and calls[0][0] == 'write_png' and calls[0][1][:2] == ('<m>', (21, 21)) and isinstance(calls[0][1][2], _BytesIO) and \
+        calls[0][2] == dict(scale='<scale>', border='<border>', compresslevel='<cl>', dark='<dark>', dpi='<dpi>')
+    yield ob('as_png_data_uri forwards scale, border, compresslevel and **kw', okp, pu, got=calls[:1], want='write_png(matrix, matrix_size, buff, scale=.., border=.., compresslevel=.., **kw)')
+    calls.clear()
+    FuncVal(pu, wenv, it)('<m>', (21, 21))
+    wd = src.param_defaults(fx.fn('writers', 'write_png'))
     for p in ('scale', 'border', 'compresslevel'):
-        yield ob(f'default of as_png_data_uri({p})', ast.unparse(pd[p]) == ast.unparse(wd[p]), pu, got=ast.unparse(pd[p]), want=ast.unparse(wd[p]))
+        want_v = ev.ev(wd[p], senv)
+        got_v = calls[0][2].get(p, want_v)
+        yield ob(f'default of as_png_data_uri({p})', got_v == want_v, pu, got=repr(got_v), want=repr(want_v))
     # QRCode methods
-    q = fx.fn('__init__', 'QRCode.svg_data_uri')
-    r = single([s for s in q.body if isinstance(s, ast.Return)], 'return of svg_data_uri')
-    ok = pat.match(r.value, 'writers.as_svg_data_uri(self.matrix, self._matrix_size, xmldecl=xmldecl, nl=nl, encode_minimal=encode_minimal, omit_charset=omit_charset, **kw)') is not None
-    qd = src.param_defaults(q)
-    okd = all(ast.unparse(qd[p]) == ast.unparse(ud[p]) for p in ('xmldecl', 'nl', 'encode_minimal', 'omit_charset'))
-    yield ob('QRCode.svg_data_uri forwards its four options and **kw, same defaults', ok and okd, r, got=ast.unparse(r.value)[:100], want='as_svg_data_uri(self.matrix, self._matrix_size, ..., **kw)')
-    q = fx.fn('__init__', 'QRCode.png_data_uri')
-    r = single([s for s in q.body if isinstance(s, ast.Return)], 'return of png_data_uri')
-    yield ob('QRCode.png_data_uri', pat.match(r.value, 'writers.as_png_data_uri(self.matrix, self._matrix_size, **kw)') is not None, r,
-             got=ast.unparse(r.value), want='writers.as_png_data_uri(self.matrix, self._matrix_size, **kw)')
-    q = fx.fn('__init__', 'QRCode.save')
-    st = single([s for s in q.body if isinstance(s, ast.Expr) and isinstance(s.value, ast.Call)], 'call in QRCode.save')
-    yield ob('QRCode.save', pat.match(st.value, 'writers.save(self.matrix, self._matrix_size, out, kind, **kw)') is not None, st,
-             got=ast.unparse(st.value), want='writers.save(self.matrix, self._matrix_size, out, kind, **kw)')
-    q = fx.fn('__init__', 'QRCode.svg_inline')
-    calls = [c for c in src.calls_in(q, 'save')]
-    c = single(calls, 'self.save in svg_inline')
-    yield ob('svg_inline = save(kind=svg, xmldecl=False, svgns=False, nl=False, **kw)',
-             pat.match(c, "self.save(H_b, kind='svg', xmldecl=False, svgns=False, nl=False, **kw)") is not None, c, got=ast.unparse(c),
-             want="self.save(buff, kind='svg', xmldecl=False, svgns=False, nl=False, **kw)")
-    q = fx.fn('__init__', 'QRCode.terminal')
-    tc = [ast.unparse(c) for c in src.calls_in(q) if (src.call_name(c) or '').startswith('writers.write_terminal')]
-    yield ob('QRCode.terminal passes (matrix, size, out or stdout, border)', 'writers.write_terminal_compact(self.matrix, self._matrix_size, out or sys.stdout, border)' in tc
-             and 'writers.write_terminal(self.matrix, self._matrix_size, out or sys.stdout, border)' in tc, q, got=tc, want='write_terminal[_compact](self.matrix, self._matrix_size, out or sys.stdout, border)')
+    wcalls = []
+
+    def wrec(name):
+        def f(*a_, **k_):
+            wcalls.append((name, a_, k_))
+            return f'<{name} result>'
+        return f
+    stdout = object()
+    wns = ev.Namespace('writers', {n: wrec(n) for n in ('as_svg_data_uri', 'as_png_data_uri', 'save', 'write_terminal', 'write_terminal_compact', 'write_terminal_win')})
+
+    class SysNs:
+        _model = ('stdout', 'platform')
+        platform = 'linux'
+    SysNs.stdout = stdout
+    qenv = callable_env(fx.forest, '__init__', it, {'writers': wns, 'sys': SysNs(), 'io': io_ns})
+
+    def qr():
+        q_ = Instance(fx.forest, '__init__', 'QRCode', qenv, it)
+        q_.matrix, q_._matrix_size = '<m>', (21, 21)
+        return q_
+    ud = src.param_defaults(uri)
+    uenv = senv
+    qd = src.param_defaults(fx.fn('__init__', 'QRCode.svg_data_uri'))
+    wcalls.clear()
+    res = qr().svg_data_uri(xmldecl='<x>', encode_minimal='<em>', omit_charset='<oc>', nl='<nl>', scale='<s>', dark='<d>')
+    ok = wcalls == [('as_svg_data_uri', ('<m>', (21, 21)), dict(xmldecl='<x>', encode_minimal='<em>', omit_charset='<oc>', nl='<nl>', scale='<s>', dark='<d>'))] \
+        and res == '<as_svg_data_uri result>'
+    okd = all(ev.ev(qd[p], qenv) == ev.ev(ud[p], uenv) for p in ('xmldecl', 'nl', 'encode_minimal', 'omit_charset'))
+    yield ob('QRCode.svg_data_uri forwards its four options and **kw, same defaults', ok and okd, fx.fn('__init__', 'QRCode.svg_data_uri'), got=wcalls[:1], want='as_svg_data_uri(self.matrix, self._matrix_size, ..., **kw)')
+    wcalls.clear()
+    res = qr().png_data_uri(scale='<s>', dark='<d>')
+    yield ob('QRCode.png_data_uri', wcalls == [('as_png_data_uri', ('<m>', (21, 21)), dict(scale='<s>', dark='<d>'))] and res == '<as_png_data_uri result>',
+             fx.fn('__init__', 'QRCode.png_data_uri'), got=wcalls[:1], want='writers.as_png_data_uri(self.matrix, self._matrix_size, **kw)')
+    wcalls.clear()
+    qr().save('<out>', kind='<kind>', scale='<s>')
+    got_save = [(n, a_, k_) for n, a_, k_ in wcalls]
+    oks = len(got_save) == 1 and got_save[0][0] == 'save' and (got_save[0][1] + tuple(got_save[0][2].get(x) for x in ('kind',) if x in got_save[0][2]))[:4] == ('<m>', (21, 21), '<out>', '<kind>') \
+        and {k_: v for k_, v in got_save[0][2].items() if k_ != 'kind'} == {'scale': '<s>'}
+    yield ob('QRCode.save', oks, fx.fn('__init__', 'QRCode.save'), got=got_save, want='writers.save(self.matrix, self._matrix_size, out, kind, **kw)')
+    for kw_, want_name, want_out in ((dict(), 'write_terminal', stdout), (dict(out='<o>', border=3), 'write_terminal', '<o>'), (dict(compact=True, border=1), 'write_terminal_compact', stdout),
+                                     (dict(out='<o>', compact=True), 'write_terminal_compact', '<o>')):
+        wcalls.clear()
+        qr().terminal(**kw_)
+        okt = len(wcalls) == 1 and wcalls[0][0] == want_name and wcalls[0][1][:2] == ('<m>', (21, 21)) and wcalls[0][1][2] is want_out and \
+            (list(wcalls[0][1][3:]) + [wcalls[0][2].get('border')])[0] == kw_.get('border')
+        yield ob(f'QRCode.terminal({kw_}) -> {want_name}(matrix, size, out or stdout, border)', okt, fx.fn('__init__', 'QRCode.terminal'), got=[(c_[0], c_[1][2:], c_[2]) for c_ in wcalls],
+                 want=f'{want_name}(self.matrix, self._matrix_size, out or sys.stdout, border)')
 
 
 def _transport(expr, source_txt):
